@@ -127,7 +127,7 @@ UNIT = dict(
         'placement new / reinterpret_cast<T&> / ~T are the primitives XV_PLACEMENT_NEW_MOVE / XV_DATA_AS_T / XV_DESTROY_T (ghost lifetime checks); '
         'unique_ptr<cell[]> is an array of N cells; std::atomic is the sequentially consistent cell model of xv.h; '
         'pop()/pop_strong()/pop_weak() (std::optional flavour of the same template) and the const T& / emplace overloads of assign_value are not lowered',
-  assumptions=['INT rely for vbq.*_strong.*_instant: other threads only advance enqueue_pos/dequeue_pos, by less than 2^63 in total during one call, and keep 0 <= enq-deq <= N '
+  assumptions=['SOLO (termination) start states: positions below 2^62 and pending pops only of positions that exist; beyond a 2^64 counter wrap the weak operations would spin (unsigned `seq < pos`), recorded as a remark with units/vbq/native_weak_wrap.cpp and fix_weak_wrap.diff, not reachable in practice', 'INT rely for vbq.*_strong.*_instant: other threads only advance enqueue_pos/dequeue_pos, by less than 2^63 in total during one call, and keep 0 <= enq-deq <= N '
                '(their guarantee is vbq.inv.preserved + vbq.fifo in SEQ); cell sequences are arbitrary',
                'the lifetime/ownership obligations are sequential (SEQ); under interference they rest on the commit obligations plus the composition lemma of DESIGN.md',
                'SOLO: the mid-operation states are Inv_V with any subset of claimed-but-unpublished pushes (seq = p) and claimed-but-unreleased pops (seq = p-N+1)'],
